@@ -6,6 +6,9 @@ Tie K: a populated real repository per worker (harness/impl/c05_impl.py); genera
        Registry.queryDataIds / queryDimensionRecords / queryDatasets; the rows of the new interfaces are compared with the
        Coq model (conv -> Predicate (C15 py_build) -> SQL -> SQLite semantics) over the table contents dumped from
        SQLite, by vm_compute (chk_case), and the documented meaning is cross-evaluated in Coq as well (chk_doc).
+       The legacy interfaces are compared with their own Coq model (coq/Model/ExprLegacy.v: normal form + CheckVisitor,
+       PredicateConversionVisitor, daf_relation SQL; chk_legacy_both in Model/ExprLegacyCheck.v): refused/accepted and rows,
+       the rows lost to the governor pruning of a dataset search included.
 Oracle: an independent three-valued evaluator written from doc/lsst.daf.butler/queries.rst (Fractions, Python ranges,
         half-open time intervals) applied to the same table contents; the new interfaces must return exactly the rows on
         which the expression is true; the legacy interfaces, whenever they accept the expression, the same rows.
@@ -886,7 +889,7 @@ def make_cases(ctx, tables, n_expr):
         else:
             e = ["not", ["cmp", "=", ["neg", g.col(r.choice(strs))], ["lit", ["str", "a"]]]]
         full, legacy_ok = with_instrument(r, e, scope)
-        cases.append({"scope": scope, "expr": full, "name": "ill", "wt": False, "legacy": False})
+        cases.append({"scope": scope, "expr": full, "name": "ill", "wt": False, "legacy": True})
     return cases
 
 
@@ -930,6 +933,10 @@ def run(ctx: Ctx):
         "columns; the oracle resolves identifiers independently by documented name",
         "joins that build the candidate set are C06's subject: the harness joins the dumped tables itself",
         "Gen/TimespanGen.v (C11 translator) supplies the SQL form of timespan overlaps/contains used by seval",
+        "legacy path: lsst.daf.relation (outside /repo) renders the Predicate tree to SQL; its rendering is modelled in "
+        "Model/ExprLegacy.v lsql and compared on every legacy query of every run; only refused/accepted is compared for "
+        "refusals, not the error class; unary plus is not representable in the model's expression type and such cases are "
+        "not sent to the legacy model",
     ]
     ctx.cov["rule"] = (
         "a case = one generated where-expression (boolean structure depth 0-3 over comparisons, arithmetic with negative "
